@@ -11,6 +11,7 @@ import (
 	"encoding/json"
 	"fmt"
 	"os"
+	"runtime/debug"
 	"strings"
 	"sync"
 
@@ -175,19 +176,27 @@ func (s *shape) unrank(idx int64) *Chain {
 type reporter struct {
 	r    *core.Run
 	mu   sync.Mutex
-	memo map[string]*Chain // coarse key -> minimal chain
+	memo map[string]*verdict // coarse key -> confirmed minimal chain
 }
 
-func hasKind(fs []failure, kind string) *failure {
-	for i := range fs {
-		if fs[i].kind == kind {
-			return &fs[i]
+type verdict struct {
+	sig, what string
+	c         CaseJSON
+}
+
+func kindsOf(fs []failure) string {
+	var ks []string
+	seen := map[string]bool{}
+	for _, f := range fs {
+		if !seen[f.kind] {
+			seen[f.kind] = true
+			ks = append(ks, f.kind)
 		}
 	}
-	return nil
+	return strings.Join(ks, "+")
 }
 
-func coarseKey(c *Chain, kind string) string {
+func coarseKey(c *Chain, kinds string) string {
 	var em, xm, tm uint
 	for i, f := range c.Frames {
 		if f.JS {
@@ -199,22 +208,39 @@ func coarseKey(c *Chain, kind string) string {
 			}
 		}
 	}
-	return fmt.Sprintf("%s|%d|%d|%x|%x|%x|%v", kind, c.Payload, c.Host, em, xm, tm, c.Frames[0].JS)
+	return fmt.Sprintf("%s|%d|%d|%x|%x|%x|%v", kinds, c.Payload, c.Host, em, xm, tm, c.Frames[0].JS)
 }
 
-// shrink greedily reduces a failing chain to a minimal one that fails in the same way; the signature is
-// derived from the minimal chain so that one root cause gets one signature.
-func shrink(c *Chain, kind string) *Chain {
+// hostOfExit: the host edge that performs the same Go->script convention as a native's exit.
+var hostOfExit = [...]HostEdge{xCallable: hCallable, xNew: hConstruct, xExportFn: hExportFn, xExportFnErr: hExportFnErr, xGet: hTryGet, xForOf: hTryForOf, xJSProxy: hTryJSProxy, xTryGet: hTryGet}
+
+// shrink greedily reduces a failing chain to a minimal failing one. The signature is derived from the
+// minimal chain, so that one root cause gets one signature however deep the chain was in which it showed.
+// Reductions only remove frames or replace a convention by the simplest one (or by one that is already in
+// the chain), so a chain is never attributed to a mechanism it does not contain.
+func shrink(c *Chain) *Chain {
 	fails := func(d *Chain) bool {
 		if d.validate() != nil {
 			return false
 		}
 		fs, _ := runChain(d)
-		return hasKind(fs, kind) != nil
+		return len(fs) > 0
 	}
 	cur := c.clone()
 	for changed := true; changed; {
 		changed = false
+		// drop the outer frames up to a native frame; the host then calls that native's callee the way the native did
+		for k := len(cur.Frames) - 2; k >= 0; k-- {
+			if f := cur.Frames[k]; !f.JS {
+				d := cur.clone()
+				d.Frames = d.Frames[k+1:]
+				d.Host = hostOfExit[f.Exit]
+				if fails(d) {
+					cur, changed = d, true
+					break
+				}
+			}
+		}
 		// remove two neighbouring frames (keeps alternation and the type of the innermost frame)
 		for k := 0; k+1 < len(cur.Frames) && len(cur.Frames) > 2; k++ {
 			d := cur.clone()
@@ -228,6 +254,18 @@ func shrink(c *Chain, kind string) *Chain {
 		if len(cur.Frames) > 1 {
 			d := cur.clone()
 			d.Frames = d.Frames[1:]
+			if fails(d) {
+				cur, changed = d, true
+			}
+		}
+		// the innermost native frame only raises a value: let the script frame above (or a plain script frame) throw it
+		if n := len(cur.Frames); !cur.Frames[n-1].JS && (cur.Payload.isValue() || cur.Payload == pInterrupt) {
+			d := cur.clone()
+			if n == 1 {
+				d.Frames[0] = Frame{JS: true}
+			} else {
+				d.Frames = d.Frames[:n-1]
+			}
 			if fails(d) {
 				cur, changed = d, true
 			}
@@ -270,44 +308,110 @@ func shrink(c *Chain, kind string) *Chain {
 	return cur
 }
 
+// report: c failed on a fresh runtime with failures fs.
 func (rp *reporter) report(c *Chain, fs []failure) {
-	seen := map[string]bool{}
-	for _, f := range fs {
-		if seen[f.kind] {
-			continue
-		}
-		seen[f.kind] = true
-		if f.kind == "harness" {
-			rp.r.Violation("harness|"+f.detail, "the harness could not build the chain: "+f.detail, c.JSON())
-			continue
-		}
-		key := coarseKey(c, f.kind)
-		rp.mu.Lock()
-		min := rp.memo[key]
-		rp.mu.Unlock()
-		if min == nil {
-			min = shrink(c, f.kind)
-			rp.mu.Lock()
-			rp.memo[key] = min
-			rp.mu.Unlock()
-		}
-		// confirm on fresh state
-		n, detail := 0, f.detail
-		for i := 0; i < 5; i++ {
-			fs2, _ := runChain(min)
-			if g := hasKind(fs2, f.kind); g != nil {
-				n++
-				detail = g.detail
-			}
-		}
-		sig := f.kind + "|" + min.String()
-		what := fmt.Sprintf("chain [%s]: %s", min.String(), detail)
-		if n != 5 {
-			sig = "nondeterministic|" + sig
-			what = fmt.Sprintf("failure reproduces %d/5 times: %s", n, what)
-		}
-		rp.r.Violation(sig, what, min.JSON())
+	if f := fs[0]; f.kind == "harness" {
+		rp.r.Violation("harness|"+f.detail, "the harness could not build the chain: "+f.detail, c.JSON())
+		return
 	}
+	key := coarseKey(c, kindsOf(fs))
+	rp.mu.Lock()
+	v := rp.memo[key]
+	rp.mu.Unlock()
+	if v == nil {
+		v = confirm(shrink(c), kindsOf(fs))
+		rp.mu.Lock()
+		rp.memo[key] = v
+		rp.mu.Unlock()
+	}
+	rp.r.Violation(v.sig, v.what, v.c)
+}
+
+// confirm re-runs the minimal chain on fresh runtimes.
+func confirm(min *Chain, origKinds string) *verdict {
+	first, _ := runChain(min)
+	kinds := kindsOf(first)
+	n := 0
+	for i := 0; i < 5; i++ {
+		fs2, _ := runChain(min)
+		if len(fs2) > 0 && kindsOf(fs2) == kinds {
+			n++
+		}
+	}
+	var details []string
+	for _, f := range first {
+		details = append(details, f.detail)
+	}
+	v := &verdict{sig: kinds + "|" + min.String(), c: min.JSON()}
+	v.what = fmt.Sprintf("chain [%s]: %s", min.String(), strings.Join(details, "; "))
+	if n != 5 || len(first) == 0 {
+		v.sig = "nondeterministic|" + origKinds + "|" + min.String()
+		v.what = fmt.Sprintf("failure reproduces %d/5 times: %s", n, v.what)
+	}
+	return v
+}
+
+// worker runs cases on a reused runtime (a leak left by one case is then seen by the next ones); a failure is
+// re-run on a fresh runtime before it is reported.
+type worker struct {
+	rp   *reporter
+	en   *env
+	hist []*Chain
+}
+
+const batch = 128
+
+func (w *worker) do(c *Chain) outcome {
+	if w.en != nil && len(w.hist) >= batch {
+		w.en, w.hist = nil, nil
+	}
+	reused := w.en != nil
+	fs, out, en := runOn(w.en, c)
+	if len(fs) == 0 {
+		w.en = en
+		if en == nil {
+			w.hist = nil
+		} else {
+			w.hist = append(w.hist, c)
+		}
+		return out
+	}
+	hist := w.hist
+	w.en, w.hist = nil, nil
+	if reused {
+		fresh, _ := runChain(c)
+		if len(fresh) == 0 {
+			// only fails after the earlier cases of the batch: report with the history
+			j := c.JSON()
+			for _, h := range hist {
+				j.Before = append(j.Before, h.JSON())
+			}
+			n := 0
+			for i := 0; i < 5; i++ {
+				if fs2 := runWithHistory(hist, c); kindsOf(fs2) == kindsOf(fs) {
+					n++
+				}
+			}
+			sig := "history-dependent|" + kindsOf(fs) + "|" + c.String()
+			if n != 5 {
+				sig = "nondeterministic|" + sig
+			}
+			w.rp.r.Violation(sig, fmt.Sprintf("chain [%s] fails only on a runtime that ran %d other chains before (reproduces %d/5): %s", c.String(), len(hist), n, fs[0].detail), j)
+			return out
+		}
+		fs = fresh
+	}
+	w.rp.report(c, fs)
+	return out
+}
+
+func runWithHistory(hist []*Chain, c *Chain) []failure {
+	var en *env
+	for _, h := range hist {
+		_, _, en = runOn(en, h)
+	}
+	fs, _, _ := runOn(en, c)
+	return fs
 }
 
 // ---------- run ----------
@@ -319,21 +423,19 @@ func runShape(r *core.Run, rp *reporter, s *shape) bool {
 	var mu sync.Mutex
 	ok := r.Parallel(s.total, 256, func(w int, lo, hi int64) {
 		var e, nt, sk int64
+		wk := &worker{rp: rp}
 		for idx := lo; idx < hi; idx++ {
 			c := s.unrank(idx)
 			if c == nil {
 				sk++
 				continue
 			}
-			fs, out := runChain(c)
+			out := wk.do(c)
 			e++
 			if out.crossing > 0 {
 				nt++
 			}
 			r.Outcome(out.key)
-			if len(fs) > 0 {
-				rp.report(c, fs)
-			}
 			if idx > 64 && r.WantSample(idx) {
 				r.Sample(map[string]interface{}{"shape": s.String(), "rank": idx, "chain": c.String()})
 			}
@@ -354,10 +456,12 @@ func runShape(r *core.Run, rp *reporter, s *shape) bool {
 }
 
 func run(r *core.Run) {
+	// tiny live heap, high allocation rate: the default GC pacing makes the collector run continuously
+	defer debug.SetGCPercent(debug.SetGCPercent(800))
 	r.Assume("every case runs on a fresh runtime with SetMaxCallStackSize(120); natives follow the documented idioms (panic with *Exception / Value / uncatchable error, return error, otherwise panic(NewGoError(err)))")
 	r.Assume("the stack-position oracle applies to script throws of non-Error values (throw site, or the outermost rethrow site) and to Error objects created at the throw site; for values raised by natives only identity is judged")
 	r.Assume("after a foreign (non-goja) Go panic reached the host the runtime's state is not judged: the property promises nothing about it")
-	rp := &reporter{r: r, memo: map[string]*Chain{}}
+	rp := &reporter{r: r, memo: map[string]*verdict{}}
 	bounds := map[string]interface{}{}
 	complete := true
 
@@ -368,14 +472,11 @@ func run(r *core.Run) {
 			r.Violation("harness|corpus", err.Error(), j)
 			continue
 		}
-		fs, out := runChain(c)
+		out := (&worker{rp: rp}).do(c)
 		r.Eval(1)
 		r.Outcome(out.key)
 		if out.crossing > 0 {
 			r.Nontrivial("corpus:" + c.String())
-		}
-		if len(fs) > 0 {
-			rp.report(c, fs)
 		}
 	}
 
@@ -437,9 +538,22 @@ func replay(r *core.Run, raw json.RawMessage) {
 		return
 	}
 	r.Eval(1)
-	fs, _ := runChain(c)
-	for _, f := range fs {
-		r.Violation(f.kind+"|"+c.String(), fmt.Sprintf("chain [%s]: %s", c.String(), f.detail), j)
+	var hist []*Chain
+	for _, b := range j.Before {
+		h, err := parseCase(b)
+		if err != nil {
+			r.Violation("replay|bad", err.Error(), j)
+			return
+		}
+		hist = append(hist, h)
+	}
+	fs := runWithHistory(hist, c)
+	if len(fs) > 0 {
+		var details []string
+		for _, f := range fs {
+			details = append(details, f.detail)
+		}
+		r.Violation(kindsOf(fs)+"|"+c.String(), fmt.Sprintf("chain [%s]: %s", c.String(), strings.Join(details, "; ")), j)
 	}
 }
 
